@@ -1871,6 +1871,12 @@ def type_written_twice_is_one_type(ctx):
             hi.call_function(init, [o] + list(args), {}, {})
             t = Instance(M.name, mraw)
             t.__dict__[hattr] = o
+            if "__init__" in mraw:
+                # whatever else the metaclass derives from the handler (the type's `__args__`)
+                try:
+                    hi.call_function(mraw["__init__"], [t, "T", o], {}, {})
+                except (AnalysisError, Raised, TypeError, AttributeError):
+                    pass
             return t
 
         funcs = {k: g.node for k, g in H.module.funcs.items() if g.parent is None and g.cls is None and not g.node.decorator_list}
@@ -1878,14 +1884,15 @@ def type_written_twice_is_one_type(ctx):
         same = (A_, B_) if init.args.vararg is not None else (fn_tok, (A_,))
         other = (A_, type("C", (), {})) if init.args.vararg is not None else (fn_tok, (B_,))
         try:
-            t1, t2, t3 = build(same), build(same), build(other)
+            # (members of a union / intersection written in another order are the same type)
+            t1, t2, t3 = build(same), build(tuple(reversed(same)) if init.args.vararg is not None else same), build(other)
             eq = hi.call_function(mraw["__eq__"], [t1, t2], {}, {})
             ne = hi.call_function(mraw["__eq__"], [t1, t3], {}, {})
             h1 = hi.call_function(mraw["__hash__"], [t1], {}, {})
             h2 = hi.call_function(mraw["__hash__"], [t2], {}, {})
         except (AnalysisError, Raised, TypeError, AttributeError) as e:
             raise AnalysisError(f"{H.key}: types made from it are not interpretable: {e}")
-        what = "the same members" if init.args.vararg is not None else "the same check function and equal arguments"
+        what = "the same members (in another order)" if init.args.vararg is not None else "the same check function and equal arguments"
         problems = []
         if eq is NotImplemented or not eq:
             problems.append(f"two types made from {what} compare unequal")
